@@ -46,4 +46,17 @@ Spec == Init /\ [][Next]_vars
 
 OpSeesIntendedRegisters == ok
 ShadowMatchesHardware == \A r \in AllRegs : LET s == shadow[Machine(r)][bank[Machine(r)]][r] IN s # -1 => s = hw[r]
+
+(* Unbounded histories: ShadowMatchesHardware /\ ok is an INDUCTIVE invariant of the emitter (NBanks = 1).  TLC checks the
+   induction step directly: IndInit enumerates EVERY state that satisfies the invariant (not only the reachable ones), the
+   state constraint IndOneStep stops after one Emit, and the invariants are evaluated in all successors.  Together with
+   Init => invariant (the ordinary bounded run) this gives OpSeesIntendedRegisters for histories of any length.  The same
+   run with NBanks = 2 must fail (the alternating-bank shadow is not inductive). *)
+IndInit == /\ hw \in [AllRegs -> Vals \cup {-1}]
+           /\ shadow \in [{"npu", "dma"} -> [0..NBanks - 1 -> [AllRegs -> Vals \cup {-1}]]]
+           /\ bank \in [{"npu", "dma"} -> 0..NBanks - 1]
+           /\ nops = 0 /\ ok = TRUE
+           /\ ShadowMatchesHardware
+IndSpec == IndInit /\ [][\E t \in Templates : Emit(t)]_vars
+IndOneStep == nops < 1
 =============================================================================
